@@ -15,6 +15,10 @@ NA = {
 }
 
 CHECKS = {
+ "C08": dict(level="exploration", design="§5 C08",
+   text="Seeded search over two-party protocol histories: orderDsl programs (<=7 orders; await order, kept results, Promise.all/race over host promises, explicit cancels, async callees) against a tape-driven simulated host (value / error / plain or order-linked pending promise answers, any settle order and batching, unknown and duplicate ids, idle steps, forced collections). An executable reference model of ledger + promises + combinators runs in lockstep and is compared per Suspended (fresh increasing ids, intact payloads, exactly the issued orders, obligations non-empty) and at Complete (log, nothing unanswered, every cancellation event delivered exactly once). Four recorded findings (Promise.any / allSettled over pending host promises, cancellation lost at Complete) are quarantined from the generator and replayed as witnesses.",
+   note="Trusted: the reference model (about 300 lines) and the harness host. Liveness is bounded: after the host has met every obligation, at most three further fruitless rounds are tolerated.",
+   technique="deterministic simulation: two-party protocol histories with fault injection vs lockstep reference model"),
  "C12": dict(level="exploration", design="§5 C12",
    text="Seeded search over multi-instance scenarios: 2-4 interpreters with their own programs, hosts, clocks and random seeds, scheduled action by action by the simulator in one thread (incl. late creation, early drop, forced collects), after prior lifetimes, and as one OS thread per instance released one action at a time; every instance's full trace must equal its solo trace. Plus the same seeds in 2 (quick) / 4 (thorough) fresh processes under ASLR with a shifted heap: trace hashes must agree.",
    note="Trusted: harness; per-instance collector schedules use thresholds/forced collects only (the injection seam is per thread). A cross-process hash mismatch is reported with the seed index; it cannot be turned into a single-process replay file by construction.",
